@@ -1,3 +1,3 @@
 //! Re-exports from the private module `fat::volume` (crate::fat::vk_fatx).
 #![allow(unused_imports)]
-pub(crate) use super::volume::vk_fat::{script_deletes, script_set, stub_delete_directory_entry, stub_find_directory_entry, stub_update_fat, ghost_alloc_calls, ghost_alloc_prev, ghost_fat_get, ghost_fat_set, stub_alloc_cluster, stub_alloc_ghost, stub_next_cluster, GALLOC_N, GALLOC_PREV, GALLOC_QUEUE};
+pub(crate) use super::volume::vk_fat::{script_deletes, script_set, stub_delete_directory_entry, stub_find_directory_entry, stub_update_fat, stub_cut_truncate, stub_cut_find, stub_cut_new_entry_ok, cut_find_set, cut_find_calls, stub_cut_write_entry, stub_cut_new_entry, cut_calls, ghost_alloc_calls, ghost_alloc_prev, ghost_fat_get, ghost_fat_set, stub_alloc_cluster, stub_alloc_ghost, stub_next_cluster, GALLOC_N, GALLOC_PREV, GALLOC_QUEUE};
